@@ -51,6 +51,8 @@ Step(e) ==
              ok == e.res = x.res /\ e.snap = x.vals
                    /\ \A i \in DOMAIN x.vals : (x.vals[i] # <<>> => Valid(fmt, x.vals[i][1])) IN
          /\ ((Prop \in {"C11", "ALL"} /\ ~ok) => PrintT(<<"REJECT", l, e.case, "C11">>))
+         \* a panic inside a safe operation that L0 allows is tendril's own bounds/consistency assertion firing
+         /\ ((Prop \in {"C12", "ALL"} /\ e.panicked /\ x.res = "ok") => PrintT(<<"REJECT", l, e.case, "C12">>))
          /\ vals' = (IF ok THEN x.vals ELSE vals) /\ skipping' = ~ok /\ fmt' = fmt
 
 Next == l <= Len(Rec) /\ l' = l + 1 /\ Step(Rec[l])
